@@ -4423,6 +4423,8 @@ def _match__inside_list_quantifier(
                 m = FSTMatch(q_pat, t, m)
 
         else:
+            tgt_idx = tgt_iter.idx
+
             if (t := tgt_iter.next()) is _SENTINEL:  # end of list?
                 return False
 
@@ -4438,10 +4440,13 @@ def _match__inside_list_quantifier(
                 m = FSTMatch(q_pat, t, m)
 
         matches.insert(matches_ins_idx, m)
+        iter_starts.append(tgt_idx)
 
         return True
 
     # setup
+
+    iter_starts = []  # target index at the start of each matched quantifier iteration, greedy backtrack rewinds to these
 
     tagss = mstate.new_tagss()
 
@@ -4519,7 +4524,7 @@ def _match__inside_list_quantifier(
         if greedy:  # if greedy then we are removing previous matches to try again one position to the left
             del matches[matches_del_idx]  # if there are static_tags then we are deleting the dictionary before those
 
-            tgt_iter.idx -= 1  # step back 1
+            tgt_iter.idx = iter_starts.pop()  # step back one whole iteration (which may span multiple elements)
             count -= 1
 
         else:  # if non-greedy then we are attempting to match our pattern one position to the right and if successful then try match shorter list
